@@ -1,8 +1,102 @@
 """C14 - derived reactive values converge to their defining function."""
-from lib.units import McUnit, SeqUnit, TraceUnit
+import json
+import os
+
+from lib import flows
+from lib.units import Inconclusive, McUnit, SeqUnit, TraceUnit, split_traces
+
+
+class KindTraceUnit(TraceUnit):
+    """TraceUnit whose violation signature names the kind of derived value (cfg.kind of the rejected trace), so that a
+    finding on one kind does not hide (or get confused with) a finding on another kind.  Validation itself is the shared
+    flow (flows.validate: TLC checks Do(Trace[l]) /\\ ev' = Trace[l] line by line)."""
+
+    def validate(self, ctx, tr):
+        sd = ctx.spec(self.sub)
+        with open(tr) as fh:
+            traces = split_traces([l for l in fh.read().splitlines() if l.strip()])
+        total, rejected, events = len(traces), 0, 0
+        for rnd in range(12):
+            cur = os.path.join(ctx.out, "%s.validate.ndjson" % self.module)
+            with open(cur, "w") as fh:
+                for t in traces:
+                    fh.write("\n".join(t) + "\n")
+            v = flows.validate(sd, self.module, cur, cfgkind=self.cfgkind, timeout=self.timeout)
+            ctx.bump("trace_validation_states", v["tlc"].distinct)
+            if v.get("error"):
+                save = os.path.join(ctx.out, self.module + ".trace.out")
+                with open(save, "w") as fh:
+                    fh.write(v["tlc"].out)
+                raise Inconclusive("trace validation of %s did not run: %s (%s)" % (self.module, v["error"], save))
+            if v["accepted"]:
+                events += v["total"]
+                break
+            idx, pos, bad = v["offending_index"], 0, None
+            for i, t in enumerate(traces):
+                if pos <= idx < pos + len(t):
+                    bad = i
+                    break
+                pos += len(t)
+            if bad is None:
+                raise Inconclusive("cannot locate rejected line %s" % idx)
+            upto = [json.loads(x) for x in traces[bad][: idx - pos + 1]]
+            off = v["offending"]
+            kind = upto[0].get("cfg", {}).get("kind", "?")
+            sig = "%s:trace:%s:%s" % (self.sut, kind, off.get("op", "?"))
+            if off.get("op") == "final" and off.get("hung"):
+                sig += ":hung"
+            what = "%s (%s): real code recorded %s, which the trace specification does not allow here (model: %s); history: %s" % (
+                self.module, kind, json.dumps(off), json.dumps(v["expected"]), json.dumps(upto[1:-1][-14:]))
+            if not any(x["sig"] == sig for x in ctx.violations):
+                ctx.violation(self.name, sig, what, {"kind": "trace", "module": self.module, "trace": upto, "expected": v["expected"]})
+            rejected += 1
+            events += pos
+            del traces[bad]
+            if not traces:
+                break
+        else:
+            ctx.inconclusive.append("%s: more than 12 rejected traces, rest not validated" % self.module)
+        ctx.validated += total - rejected
+        ctx.bump("validated_trace_events", events)
+        self.info["trace"] = {"traces": total, "rejected": rejected, "events": sum(len(t) for t in traces)}
+        if traces:
+            ctx.sample({"unit": self.name, "flow": "code->model (recorded concurrent execution, first lines)",
+                        "trace": [json.loads(x) for x in traces[0][:8]]})
+
+    def run(self, ctx):
+        from lib.units import run_h, classify_crash
+        tr = os.path.join(ctx.out, self.name.replace(":", "_") + ".ndjson")
+        args = self.thorough_args if (ctx.thorough and self.thorough_args is not None) else self.args
+        p = run_h(ctx, [self.command, "-seed", str(ctx.seed), "-out", tr] + [str(a) for a in args], timeout=self.timeout)
+        self.info["recorder"] = (p.stdout or "").strip()[-300:]
+        if p.returncode != 0:
+            crash = classify_crash(p.stderr or "")
+            if crash:
+                save = os.path.join(ctx.out, self.name.replace(":", "_") + ".crash.txt")
+                with open(save, "w") as fh:
+                    fh.write(p.stderr)
+                ctx.violation(self.name, "%s:crash:%s" % (self.sut, crash[:60]),
+                              "the real code crashed under the driver: %s (see %s)" % (crash, save), {"kind": "crash", "report": p.stderr[-6000:]})
+                return
+            raise Inconclusive("recorder %s died: %s" % (self.command, (p.stderr or p.stdout)[-2000:]))
+        self.validate(ctx, tr)
 
 
 def units(ctx):
     return [
+        # sequential histories of input writes and structural changes: exhaustive TLC, complete LTS replay on the real
+        # objects, recorded random histories validated by TLC
         SeqUnit("reactive", "Derived"),
+        # all interleavings of the implementation-level models where the design has a hazard, + negative controls
+        # SortedSet: its own mutex vs. the weight callback's execution lock (weight update || Delete)
+        McUnit("reactive", "DerivedSortedImpl", "", name="DerivedSortedImpl", thorough_cfgkind="thorough"),
+        McUnit("reactive", "DerivedSortedImpl", "unsub_under_mutex", name="ctl-sorted-unsub-under-mutex", expect="Terminates"),
+        McUnit("reactive", "DerivedSortedImpl", "no_deleted_flag", name="ctl-sorted-no-deleted-flag", expect="NoCorruption"),
+        # WaitGroup: pre-incremented atomic counter vs. concurrent Done / duplicate Add
+        McUnit("reactive", "DerivedWaitGroupImpl", "", name="DerivedWaitGroupImpl"),
+        McUnit("reactive", "DerivedWaitGroupImpl", "inc_after_insert", name="ctl-waitgroup-inc-after-insert", expect="NoEarlyTrigger"),
+        McUnit("reactive", "DerivedWaitGroupImpl", "dup_no_trigger", name="ctl-waitgroup-dup-no-trigger", expect="TriggeredWhenEmptied"),
+        McUnit("reactive", "DerivedRun", "", name="DerivedRun:spec"),
+        # forced schedules + free-running writers / structural changers, derived = F(inputs) at quiescence, watchdog
+        KindTraceUnit("reactive", "DerivedRun", "derivedrun", args=["-traces", 400], thorough_args=["-traces", 2000], sut="DerivedRun"),
     ]
